@@ -92,6 +92,12 @@ func rawExchangeGated(addr string, reqBytes []byte, method string, timeout time.
 			}
 		}
 		if code >= 100 && code < 200 && code != 101 {
+			// "100 Continue" may arrive twice through a Go reverse proxy: net/http's server sends one when the request body is first
+			// read and httputil.ReverseProxy forwards the backend's; which of the two comes first is a race inside the standard
+			// library (the second is suppressed only in one order).  Their number is not Helios's: repeated 100s count as one.
+			if code == 100 && len(out.Interim) > 0 && out.Interim[len(out.Interim)-1] == 100 {
+				continue
+			}
 			out.Interim = append(out.Interim, code)
 			out.InterimH = append(out.InterimH, h)
 			continue
